@@ -1,38 +1,9 @@
-//! C29 (relay's graphql-syntax against the June 2018 grammar) and C30 (isograph's schema parser
-//! against the same reference, inside its supported subset). Oracle: `refgql`.
-use serde_json::json;
-use vcore::{Fail, Report};
-
-mod c29;
-mod c30;
-mod fixtures;
-mod ggen;
-mod iso_conv;
-mod relay_conv;
-mod render;
-mod shared;
-
 fn main() {
     let args = vcore::parse_args();
     match args.property.as_str() {
-        "C29" => c29::run(&args),
-        "C30" => c30::run(&args),
-        "fixtures" => fixtures::run(&args),
+        "C29" => gqlcheck::c29::run(&args),
+        "C30" => gqlcheck::c30::run(&args),
+        "fixtures" => gqlcheck::fixtures::run(&args),
         other => vcore::inconclusive(&format!("gqlcheck: unknown property {other}")),
     }
-}
-
-/// A failure of the generator/reference self-check is a harness problem (exit 2), anything else a
-/// violation with a replay file that holds the failing text.
-pub fn report_failure(report: &Report, name: &str, fail: &Fail, default_target: &str) {
-    if fail.signature.starts_with("SELF-CHECK") {
-        println!("{}", fail.message);
-        vcore::inconclusive(&format!("generator and reference disagree ({}): fix the harness", fail.signature));
-    }
-    let input = shared::attached_input(&fail.message).unwrap_or_else(|| json!({"target": default_target, "text": ""}));
-    report.violation(name, fail, input);
-}
-
-pub fn finish(report: Report) -> ! {
-    report.finish()
 }
